@@ -332,10 +332,12 @@ def optional_syntax(ctx):
     # parse_string: statements of a line go to the same body list as
     # separate lines
     ps = repo.func('qbee.parser', 'parse_string')
-    txt = unparse(ps.node)
-    ok = 'for stmt in line_node.nodes:' in txt and \
-        'cur_block_body.append(stmt)' in txt and \
-        "input_string.split('\\n')" in txt
+    from .. import pat
+    ok = pat.has('for _LINE in input_string.split(\'\\n\'):\n    ...\n'
+                 '    for _S in _N.nodes:\n        ...\n    ...', ps.node) and \
+        pat.has('for _S in _N.nodes:\n    ...\n    if __:\n        ...\n'
+                '    elif __:\n        ...\n    else:\n'
+                '        _BODY.append(_S)', ps.node)
     ctx.instance(rule, f'{ps.file}:parse_string:same-body')
     if not ok:
         ctx.finding(rule, f'{ps.file}:parse_string:same-body',
@@ -369,10 +371,9 @@ def labels_not_in_module(ctx):
             loop = n
     ok = False
     for st in loop.body if loop else []:
-        if isinstance(st, ast.If) and "op == '_label'" in unparse(st.test):
+        if isinstance(st, ast.If) and "== '_label'" in unparse(st.test):
             ok = isinstance(st.body[-1], ast.Continue) and not any(
-                isinstance(s, ast.AugAssign) and dotted(s.target) == 'code'
-                for s in ast.walk(st))
+                isinstance(s, ast.AugAssign) for s in ast.walk(st))
     ctx.instance(rule, f'{asm.file}:QvmCode.assembled[_label]')
     if not ok:
         ctx.finding(rule, f'{asm.file}:QvmCode.assembled[_label]',
@@ -380,7 +381,7 @@ def labels_not_in_module(ctx):
                     'continues', asm.file, asm.line)
     b = repo.func('qbee.qvm_codegen', 'QvmCode.__bytes__')
     txt = unparse(b.node)
-    ok = 'for data_part in self._data.values():' in txt and \
+    ok = 'in self._data.values():' in txt and \
         'self._data.items()' not in txt and 'self._data.keys()' not in txt
     ctx.instance(rule, f'{b.file}:QvmCode.__bytes__:data-by-position')
     if not ok:
